@@ -9,7 +9,6 @@ use crate::steps::{Config, Replay, Size, Step, View, Violation};
 use std::collections::{BTreeMap, BTreeSet};
 use usim::cpu::{Cpu, Ev, CR4_PCIDE};
 use usim::hwwalk;
-use usim::physmem::garbage_word;
 use usim::world::world;
 
 #[derive(Default, Clone, Debug)]
@@ -137,6 +136,7 @@ impl<'a> Exec<'a> {
     pub fn new(cfg: &Config, stats: &'a mut Stats) -> Exec<'a> {
         let w = world();
         w.mem.reset(cfg.garbage_seed);
+        w.mem.zero_data = if cfg.zero_data { Some(cfg.zone_seed) } else { None };
         w.cpu = Cpu::default();
         w.cpu.cr3 = cfg.p4_frame | cfg.cr3_low as u64;
         if cfg.pcide {
@@ -253,7 +253,7 @@ impl<'a> Exec<'a> {
                 // back to what uncommitted memory reads as
                 let mut g = [0u64; 512];
                 for (i, x) in g.iter_mut().enumerate() {
-                    *x = garbage_word(w.mem.garbage_seed, f >> 12, i);
+                    *x = w.mem.fill_word(f >> 12, i);
                 }
                 w.mem.write_frame(f, &g);
             }
@@ -349,7 +349,7 @@ impl<'a> Exec<'a> {
                 for i in 0..512 {
                     let was = match pre.get(&f) {
                         Some(b) => b[i],
-                        None => garbage_word(w.mem.garbage_seed, f >> 12, i),
+                        None => w.mem.fill_word(f >> 12, i),
                     };
                     if now[i] != was {
                         return Err((false, format!("physical frame {:#x} is not a page table of the hierarchy but word {} changed {:#x} -> {:#x}", f, i, was, now[i])));
@@ -580,7 +580,19 @@ impl<'a> Exec<'a> {
         }
 
         // outcome class
-        let code_ok = if s.any_err { out.code != Code::Ok && out.code != Code::Mapped } else { s.accept.contains(&out.code) };
+        let mut code_ok = if s.any_err { out.code != Code::Ok && out.code != Code::Mapped } else { s.accept.contains(&out.code) };
+        if !code_ok {
+            if let Some((c, after)) = s.alt.take() {
+                if out.code == c {
+                    // the other documented reading of a non-present entry: nothing changes
+                    code_ok = true;
+                    s.after = after;
+                    s.exp_frame = None;
+                    s.exp_token = None;
+                    self.stats.probe("np_leaf_alt_outcome");
+                }
+            }
+        }
         if !code_ok {
             let exp = if s.any_err { "any error".to_string() } else { s.accept.iter().map(|c| c.name()).collect::<Vec<_>>().join("|") };
             let mut props = vec!["C02"];
@@ -631,11 +643,13 @@ impl<'a> Exec<'a> {
         }
         // effective rights include the requested parent flags
         if let (Step::Map { page, flags, pflags, .. }, Code::Ok) = (step, out.code) {
+            if flags & 1 != 0 {
             let pf = crate::steps::pflags_of(pflags).unwrap_or(flags & 7);
             if let Some(wk) = hwwalk::walk(&w.mem, pre.root, *page) {
                 if (pf & flags & 2 != 0 && !wk.eff_w) || (pf & flags & 4 != 0 && !wk.eff_u) {
                     return Err(viol(&["C01"], "effective-rights", i, format!("{name}: requested parent flags {pf:#x} but the walk of {page:#x} gives w={} u={}", wk.eff_w, wk.eff_u)));
                 }
+            }
             }
         }
         self.record_cell(step, &s, &out, mask);
@@ -732,7 +746,7 @@ impl<'a> Exec<'a> {
         } else {
             self.stats.cleanup_model_differ += 1;
         }
-        let dummy = Spec { accept: vec![], any_err: false, after: after.clone(), exp_allocs: 0, exp_frame: None, exp_token: None, class: Class::Free, filtered: false, path: vec![] };
+        let dummy = Spec { accept: vec![], any_err: false, after: after.clone(), exp_allocs: 0, exp_frame: None, exp_token: None, class: Class::Free, filtered: false, path: vec![], alt: None };
         self.record_cell(step, &dummy, &Outcome { code: Code::Ok, frame: None, token: None, flush_all: false, xl: None, xl_addr: None, panic: None, flush_trace: vec![] }, obs.len().min(255) as u8);
         // released frames go back to the environment: someone else scribbles on them
         for f in &released {
@@ -801,11 +815,15 @@ impl<'a> Exec<'a> {
             let o = &outs[4 * k];
             // model vs independent raw walk
             let hm = h.map(|x| (x.frame, x.size.bytes(), x.leaf_flags));
-            let mm = m.as_ref().map(|x| (x.frame, x.size.bytes(), x.flags));
+            let np = m.as_ref().map_or(false, |x| x.flags & 1 == 0);
+            // a leaf without the PRESENT bit is not a translation for the hardware
+            let mm = if np { None } else { m.as_ref().map(|x| (x.frame, x.size.bytes(), x.flags)) };
             if hm != mm {
                 return Err(viol(&["C01"], "walk-vs-history", i, format!("address {va:#x}: the history of successful calls dictates {mm:x?} (frame, size, flags); a hardware walk of the raw tables gives {hm:x?}")));
             }
             match &m {
+                // the documentation does not say whether translate reports a non-present entry
+                Some(_) if np && o.code == Code::NotMapped && o.xl_addr == Some(None) => {}
                 None => {
                     if o.code != Code::NotMapped || o.xl_addr != Some(None) {
                         return Err(viol(&["C01"], "translate", i, format!("address {va:#x} is not mapped but translate returned {} / translate_addr {:x?}", o.code.name(), o.xl_addr)));
@@ -828,7 +846,8 @@ impl<'a> Exec<'a> {
                 let st = &steps[4 * k + 1 + j];
                 let (class, any_err, acc, exp_frame) = crate::spec::translate_page_expect(&self.rs.model, st.page().unwrap(), *sz);
                 let o = &outs[4 * k + 1 + j];
-                let ok = if any_err { o.code != Code::Ok } else { o.code == acc && (o.code != Code::Ok || o.frame == exp_frame) };
+                let np_leaf = acc == Code::Ok && crate::spec::leaf_not_present(&self.rs.model, st.page().unwrap(), *sz);
+                let ok = if any_err { o.code != Code::Ok } else { (o.code == acc && (o.code != Code::Ok || o.frame == exp_frame)) || (np_leaf && o.code == Code::NotMapped) };
                 if !ok {
                     let mut props = vec!["C02"];
                     if o.code == Code::Ok || acc == Code::Ok {
